@@ -41,6 +41,12 @@ def main(prop=PROP, doc=__doc__, goals=GOALS):
     r = runner.explore("harness.fam_nbmerge", F.strategy_shards(t, (prop,), kn),
                        nproc=common.nproc(), budget_s=400 if t == "quick" else 3000)
     chk.add("strategy-product", r)
+    if prop == "C04" and "F22" in known:
+        w = runner.explore_inline(F.make_default(templates=("codeT",), acts="ACTS_TAGS", ins=(0, 0), ids=(0,),
+                                                 props=(prop,), known=()), max_violations=1)
+        if w.violations:
+            chk.known_finding("F22", "both sides add the same tag at different positions: %s" % (
+                str(w.violations[0]["info"])[:140]))
     chk.bounds.update(F.BOUNDS[t])
     chk.outside += F.OUTSIDE
     chk.stubs += F.STUBS
